@@ -188,7 +188,8 @@ def join_dom(a, b):
         if k in a and k in b:
             out[k] = d.join(a[k], b[k])
         else:
-            out[k] = d.join(a.get(k, d.bottom()), b.get(k, d.bottom()))
+            # a missing entry is "nothing known yet on that path" (bottom): keep the other side
+            out[k] = a[k] if k in a else b[k]
     return out
 
 
